@@ -295,7 +295,7 @@ def _drop_prefix(path, prefix):
 
 
 
-def ref_place(fn, operand, limit=12):
+def ref_place(fn, operand, limit=40):
     """the storage a reference operand designates, as (base local, tuple of field indices): follows copies of the reference,
     reborrows and field projections (`&mut (*self_).data` with self_ = &mut message  ->  (message, (1,))).  A by-value
     operand designates itself.  None when a step is not a plain borrow/copy."""
